@@ -490,6 +490,17 @@ def step_(ctx, g, name, obj, ids, regime, nxt, hist, coords, sibs):
                 pass
         if g.random() < 0.12:      # a one-element sequence: still a NEW object with the receiver's entities
             operands = []; new = list(cur)
+        elif axis in ("taxa", "vrnt") and g.random() < 0.12 and getattr(obj, LM.PRIMARY[axis], None) is not None:
+            # mixed presence of the optional name array among the matrices: the unnamed one first or later - the named rows keep
+            # their names, the unnamed ones get the documented None placeholder (the history ends here)
+            try:
+                if g.random() < 0.5:
+                    setattr(obj, LM.PRIMARY[axis], None); regime.unnamed[axis].update(cur)
+                    del sibs[:]        # earlier matrices of the same entities still carry their names: no longer comparable by id
+                else:
+                    setattr(operands[0], LM.PRIMARY[axis], None); regime.unnamed[axis].update(n1)
+            except Exception:
+                pass
         form = "%d operands" % (1 + len(operands))
         variants = [("concat" + S, "concat" + S, False, lambda o, q: getattr(cls, "concat" + S)([o] + list(q))),
                     ("concat(axis)", "concat", False, lambda o, q: cls.concat([o] + list(q), axis=ax))]
